@@ -14,4 +14,6 @@ def run(tier, seed):
     run.cov['rule'] = ('Array: every macro-edge of the TLC state graph of spec/Array.tla (data and metadata alphabets) is '
                        'executed on the real code; README bytes must equal the text regenerated from a fresh handle and '
                        'the parsed stamp must equal the spec stamp.')
-    return raggedhist.run_check('C08', tier, seed, 'readme+data', run=run)
+    # thorough: also inside user contexts, where the ragged README is written through the maps that are open
+    # (spec: TStamp through Visible - the stale listing is part of the model, outside C08's histories)
+    return raggedhist.run_check('C08', tier, seed, 'readme+data+ctx' if tier == 'thorough' else 'readme+data', run=run)
